@@ -86,7 +86,9 @@ PROPS = {
                       'are a bounded stand-in',
         'trusted': NUMPY_TRUST + ['numpy.argmin (an index attaining the minimum)', 'propagate call-site summary'],
         'extra': [{'name': 'penalties', 'kind': 'bounded', 'script': 'bounded/penalties.py'},
-                  {'name': 'mode_search', 'kind': 'bounded', 'script': 'bounded/mode_search.py', 'timeout': 2400}],
+                  {'name': 'mode_search', 'kind': 'bounded', 'script': 'bounded/mode_search.py', 'timeout': 2400},
+                  # which add / drop impairment set (and so which add/drop OSNR) a crossing counts
+                  {'name': 'roadm_paths', 'kind': 'bounded', 'script': 'bounded/roadm_paths.py', 'timeout': 1200}],
     },
     'C14': {
         'level': 'proof',
